@@ -527,6 +527,10 @@ class InitAdaptive(Contract):
         s.fields["lmax"] = S.int("lmax_old")
         return {"self": s, "lmax": S.int("lmax"), "lmin": S.int("lmin_new")}
 
+    def pre(self, S, env):
+        # the function's own input validation (three leading asserts)
+        return [("valid-level-range", z3.And(env["lmax"] >= env["lmin"], env["lmin"] >= 0))]
+
     def post(self, S, old, env, result):
         f = env["self"].fields
         lmax, lmin, dim = old["lmax"], old["lmin"], old["self"].fields["dim"]
